@@ -1017,8 +1017,9 @@ def run_settings(env, res, only=None):
                 small = shrink_settings(s, fails)
                 r2 = common.Result()
                 check_settings(small, drv, r2, dict(forms={}, outcomes={}, samples=9), target)
-                g = next(g for g in r2.failures if g.kind == f.kind and g.key == f.key)
-                res.failures[before] = g
+                g = next((g for g in r2.failures if g.kind == f.kind and g.key == f.key), None)
+                if g is not None:               # else: the shrunk settings do not reproduce it alone - keep the original
+                    res.failures[before] = g
                 del res.failures[before + 1:]
             if len(res.failures) >= 12:
                 break
